@@ -434,7 +434,7 @@ def run(ctx, res):
     history_stream(ctx, res, ctx.budget(300, 3000))
     # find_cycle (outside the property's statement; modelled as is, tie by exact equality, counts in the distribution)
     c19_cycle.run_cycle(ctx, res)
-    res.exhaustive = bool(ctx.thorough or ctx.deep)
+    res.exhaustive = False  # all digraphs up to the stated size are enumerated (RULE); the property (all digraphs) is not enumerable
 
 
 def _verdict(case):
